@@ -207,10 +207,6 @@ impl Cqueue {
     // when the select coroutine is done, check the panic status
     // if it's panicked, re throw the panic data
     fn check_panic(&self, id: usize) {
-        if self.is_panicking.load(Ordering::Relaxed) {
-            return;
-        }
-
         use generator::Error;
         // take the handle out and release the lock before waiting for the
         // coroutine and before re-raising its panic: a guard that is alive
@@ -221,7 +217,14 @@ impl Cqueue {
             .unwrap_or_else(|e| e.into_inner())[id]
             .take()
             .expect("join handler not set");
-        match handle.join() {
+        // always wait until the coroutine is really gone: it still uses the
+        // cqueue after it has pushed its Done event
+        let result = handle.join();
+        if self.is_panicking.load(Ordering::Relaxed) {
+            // a panic was re-raised already, the others are only waited for
+            return;
+        }
+        match result {
             Ok(_) => {}
             Err(panic) => {
                 if let Some(err) = panic.downcast_ref::<Error>() {
